@@ -10,6 +10,7 @@ import (
 	"fmt"
 	"os"
 	"strconv"
+	"time"
 )
 
 type AssumeFailed struct{}
@@ -244,4 +245,30 @@ func TextHasSecret(text string, secrets ...string) bool {
 		}
 	}
 	return false
+}
+
+var joinCh chan struct{}
+
+// Blocked runs f as another goroutine would run it while the caller holds whatever locks it holds, and reports
+// whether f was parked on one of them. Under the symbolic executor f is executed up to the Lock that is held (its
+// effects up to there persist, the rest never happens); natively f runs in a goroutine and counts as parked when it
+// has not returned after 300 ms - Join then waits for it (call it after the lock was released).
+func Blocked(f func()) bool {
+	done := make(chan struct{})
+	go func() { defer close(done); f() }()
+	select {
+	case <-done:
+		joinCh = nil
+		return false
+	case <-time.After(300 * time.Millisecond):
+		joinCh = done
+		return true
+	}
+}
+
+func Join() {
+	if joinCh != nil {
+		<-joinCh
+		joinCh = nil
+	}
 }
